@@ -617,6 +617,10 @@ class ProxyManager(PoolManager):
             headers_["Host"] = netloc
 
         if headers:
+            # Field names are case-insensitive: "host" provided by the user must
+            # suppress the default "Host" instead of being sent alongside it.
+            provided = {k.lower() for k in headers}
+            headers_ = {k: v for k, v in headers_.items() if k.lower() not in provided}
             headers_.update(headers)
         return headers_
 
